@@ -64,9 +64,11 @@ def run(ctx):
     ctx.rule('C17.c-work-travels', 'new() keeps the supplied work; the default-rate switch hands over engine and work from into_parts()')
     ctx.rule('C17.d-results-borrow', 'result/iterator structs hold references and scalars only; accessors return borrowed slices')
     ctx.rule('C17.a-stack-erasures', 'the 65536-entry erasure array is a stack local, not a heap allocation')
+    ctx.rule('C17.e-exact-need', 'the store is resized to exactly ceil(shard_bytes / 64) blocks per shard and work_count shards: a configuration that needs no more than what is held never grows the allocation')
     for cfg in cfgs:
         facts = ctx.facts(cfg)
         ctx.guard('C17.analysable', check, ctx, facts, cfg)
+        ctx.guard('C17.analysable', exact_need, ctx, facts, cfg)
 
 
 ROUND_TRAIT_METHODS = {'rate::RateEncoder': ('add_original_shard', 'encode'),
@@ -282,3 +284,87 @@ def same_obj(a, b):
             c = c[1]
         return core.strip_var_ids(c)
     return norm(a) == norm(b)
+
+
+def exact_need(ctx, facts, cfg):
+    """C17.e: the arguments the explicit reset gives to the store's resize are (work_count, ceil(shard_bytes / 64)), and the
+    store allocates count * len blocks"""
+    from . import roles as roles_mod
+    R = 'C17.e-exact-need'
+    RL = roles_mod.roles(facts)
+    n = 0
+    private = lambda g, t: not g.reachable and not g.impl_trait and not g.in_trait and g.kind != 'Closure'
+
+    def strip(c):
+        if isinstance(c, tuple) and c and c[0] == 'checked':
+            return strip(c[1])
+        if isinstance(c, tuple) and c and c[0] == 'call':
+            return ('call', c[1], tuple(strip(x) for x in c[2]))
+        if isinstance(c, tuple):
+            return tuple(strip(x) for x in c)
+        return c
+
+    def is_len(c):
+        return c in (('param', 'shard_bytes'), ('field', ('deref', ('param', 'self')), 'shard_bytes'))
+
+    def is_ceil64(c):
+        c = strip(c)
+        if c[0] == 'call' and str(c[1]).endswith('::div_ceil') and len(c[2]) == 2 and is_len(c[2][0]) and c[2][1] == ('const', 64):
+            return True
+        if c[0] == 'bin' and ((c[1] == 'Div' and c[3] == ('const', 64)) or (c[1] == 'Shr' and c[3] == ('const', 6))):
+            a = c[2]
+            if a[0] == 'bin' and a[1] == 'Add' and ((is_len(a[2]) and a[3] == ('const', 63)) or (is_len(a[3]) and a[2] == ('const', 63))):
+                return True
+        return False
+    for side in ('enc', 'dec'):
+        rp = RL.get(ctx, side + '.reset', R, cfg)
+        rz = RL.get(ctx, 'store.resize', R, cfg)
+        if rp is None or rz is None:
+            continue
+        fn = core.inlined_fn(facts, rp.path, lambda g, t, rzp=rz.path: private(g, t) and g.path != rzp, tag='need')
+        body = fn.body
+        calls = [(b, t) for b, t in body.calls() if t['callee'].get('path') == rz.path]
+        if len(calls) != 1:
+            ctx.violation(R, 'resize-calls:%s' % side, '%s calls the store resize %d times, expected once' % (rp.path, len(calls)), site=rp.span, fn=rp.path, cfg=cfg)
+            continue
+        t = calls[0][1]
+        a1 = RL.norm(core.strip_var_ids(body.canon_op(t['args'][1])), rp.path)
+        a2 = RL.norm(core.strip_var_ids(body.canon_op(t['args'][2])), rp.path)
+        n += 1
+        if strip(a1) != ('param', 'work_count'):
+            ctx.violation(R, 'shard-count:%s' % side, '%s resizes the store to %s shards, not to its work_count parameter' % (rp.path, core.show(a1)), site=t['line'], fn=rp.path, cfg=cfg)
+        elif not is_ceil64(a2):
+            ctx.violation(R, 'blocks-per-shard:%s' % side, '%s resizes the store to %s blocks per shard; only ceil(shard_bytes / 64) (div_ceil(64) or (n + 63) / 64) is exactly what a shard needs: '
+                          'more makes equal-need configurations outgrow the allocation, less loses the tail' % (rp.path, core.show(a2)), site=t['line'], fn=rp.path, cfg=cfg)
+        else:
+            ctx.ok(R, '%s@%s' % (rp.path, cfg), {'shards': core.show(a1), 'blocks_per_shard': core.show(a2)})
+    # the store: len = count * len_64, both stored verbatim
+    rz = RL.fn.get('store.resize')
+    if rz:
+        f = core.inlined_fn(facts, rz, private, tag='need')
+        b = f.body
+        pn = f.param_names()
+        good = False
+        for bb, t in b.calls():
+            if re.search(r'Vec::<.*>::resize$', t['callee'].get('path') or ''):
+                c = strip(core.strip_var_ids(b.canon_op(t['args'][1])))
+                fields = {}
+                for blk in b.blocks:
+                    for st in blk['stmts']:
+                        if st['k'] == 'assign' and st['lhs']['l'] == 1 and len(st['lhs']['p']) == 2 and st['lhs']['p'][0] == '*':
+                            fields[st['lhs']['p'][1].get('f')] = strip(core.strip_var_ids(b.canon_rv(st['rv'])))
+
+                def val(x):
+                    # a field read after it was assigned from a parameter stands for that parameter
+                    if x[0] == 'field' and x[1] == ('deref', ('param', 'self')) and fields.get(x[2], ('?',))[0] == 'param':
+                        return fields[x[2]]
+                    return x
+                if c[0] == 'bin' and c[1] == 'Mul' and len(pn) == 3 and {val(c[2]), val(c[3])} == {('param', pn[1]), ('param', pn[2])}:
+                    good = True
+                    ctx.ok(R, '%s@%s' % (rz, cfg), {'new_len': core.show(c)})
+                else:
+                    ctx.violation(R, 'store-len', 'the store is resized to %s blocks, not to shard_count * shard_len_64 of its parameters' % core.show(c), site=t['line'], fn=rz, cfg=cfg)
+                    good = True
+        if not good:
+            ctx.violation(R, 'store-len:no-resize', 'the store resize does not resize its Vec', fn=rz, cfg=cfg)
+    ctx.floor(R, 2, n, 'resize call sites in the explicit resets', cfg=cfg)
